@@ -4,8 +4,13 @@ package connectconformance
 
 import (
 	"errors"
+	"fmt"
+	"os"
+	"path/filepath"
 	"sort"
 	"strings"
+
+	"google.golang.org/protobuf/encoding/protojson"
 
 	"connectrpc.com/conformance/internal"
 	conformancev1 "connectrpc.com/conformance/internal/gen/proto/go/connectrpc/conformance/v1"
@@ -99,8 +104,63 @@ func VerifValidate(suites map[string]*conformancev1.TestSuite, cfgYAML string, f
 	if err == nil {
 		return names, "ran", nil, ""
 	}
-	msg := err.Error()
-	rawErr = msg
+	class, list = verifC08Classify(err.Error())
+	return names, class, list, err.Error()
+}
+
+type verifC08CapturePrinter struct{ lines []string }
+
+func (p *verifC08CapturePrinter) Printf(f string, a ...any) {
+	p.lines = append(p.lines, fmt.Sprintf(f, a...))
+}
+func (p *verifC08CapturePrinter) PrefixPrintf(_ string, f string, a ...any) {
+	p.lines = append(p.lines, fmt.Sprintf(f, a...))
+}
+
+// VerifValidateRun does what VerifValidate does, but through the exported Run: the four pattern
+// lists travel in Flags exactly as the command hands them over (config and suites are files in dir),
+// so the glue between the lists and the tries that run() validates is part of the observation.
+func VerifValidateRun(dir string, suites map[string]*conformancev1.TestSuite, cfgYAML string, failing, flaky, run, skip []string) (class string, list []string, rawErr string) {
+	cfgPath := filepath.Join(dir, "cfg.yaml")
+	if err := os.WriteFile(cfgPath, []byte(cfgYAML), 0o600); err != nil {
+		return "harness-error", nil, err.Error()
+	}
+	var paths []string
+	var fileNames []string
+	for name := range suites {
+		fileNames = append(fileNames, name)
+	}
+	sort.Strings(fileNames)
+	for _, name := range fileNames {
+		b, err := protojson.Marshal(suites[name])
+		if err != nil {
+			return "harness-error", nil, err.Error()
+		}
+		p := filepath.Join(dir, name)
+		if err := os.WriteFile(p, b, 0o600); err != nil {
+			return "harness-error", nil, err.Error()
+		}
+		paths = append(paths, p)
+	}
+	flags := &Flags{
+		ConfigFile: cfgPath, TestFiles: paths,
+		ClientCommand: []string{"/nonexistent/verif-client"}, MaxServers: 1, Parallelism: 1,
+		KnownFailingPatterns: failing, KnownFlakyPatterns: flaky, RunPatterns: run, SkipPatterns: skip,
+	}
+	logP, errP := &verifC08CapturePrinter{}, &verifC08CapturePrinter{}
+	ok, err := Run(flags, logP, errP)
+	msg := strings.Join(errP.lines, "\n")
+	if err != nil {
+		msg = err.Error()
+	}
+	if ok && err == nil && msg == "" {
+		return "ran", nil, ""
+	}
+	class, list = verifC08Classify(msg)
+	return class, list, msg
+}
+
+func verifC08Classify(msg string) (class string, list []string) {
 	listOf := func(after string) []string {
 		i := strings.Index(msg, after)
 		if i < 0 {
@@ -117,13 +177,13 @@ func VerifValidate(suites map[string]*conformancev1.TestSuite, cfgYAML string, f
 	switch {
 	case strings.Contains(msg, "unmatched and possibly invalid patterns:"):
 		what := msg[:strings.Index(msg, ":")]
-		return names, "unmatched:" + what, listOf("patterns:\n"), msg
+		return "unmatched:" + what, listOf("patterns:\n")
 	case strings.Contains(msg, "ambiguous"):
-		return names, "ambiguous", listOf("both\n:"), msg
+		return "ambiguous", listOf("both\n:")
 	case strings.Contains(msg, "error starting client"):
-		return names, "ok", nil, msg
+		return "ok", nil
 	}
-	return names, "other", nil, msg
+	return "other", nil
 }
 
 func runForVerif(cases []configCase, kf, kl, run, skip *testTrie, suites map[string]*conformancev1.TestSuite, flags *Flags) (*testResults, error) {
